@@ -502,6 +502,11 @@ def main(prop: str, tier: str) -> int:
                     'samples': [{'text': traces[0]['text'], 'events': [{k: v for k, v in e.items() if k != 'obs'} for e in traces[0]['events'][:4]]}] if traces else []})
     rep.assumptions += ['documents of <= 2-4 structural lines, both attribution modes; one perturbation per comparison',
                         'indent_by (a configuration attribute that takes part in equality) is not perturbed']
+    if prop == 'C11':
+        from checks import inserted_comments
+        ic = inserted_comments.run(rep, tier, {'copy'})
+        rep.cov['inserted_comments_between_fields'] = {k: v for k, v in ic.items() if k != 'sample'}
+        rep.cov['traces_validated_against_impl'] = rep.cov.get('traces_validated_against_impl', 0) + ic['behaviours']
     return rep.finish()
 
 
